@@ -93,3 +93,44 @@ entry("C19", True, "model_checking",
       "on the recorded public views of the real histories.",
       "Bounds: controller depth <=4 (quick) / 5 (thorough), <=7 events exhaustively; deeper histories (64-deep log) are sampled.",
       "TLC model checking + per-transition conformance replay on the real FaultLog + TLC trace validation", "DESIGN.md §4 C19")
+
+_GW_NOTE = ("Trusted: harness fakes (FakeTransport / load_log_gateway / VDT virtual datetime) and the virtual-time loop; observations "
+            "are taken at quiescence (J1). Histories are derived from the ~140 shipped logs by the stated operators with VERIF_SEED; "
+            "bounds are in the evidence file.")
+entry("C13", True, "model_checking",
+      "spec/Engine.tla models pause / compute-or-replay (may raise anywhere) / resume for get_state and restore; TLC checks "
+      "'running after every operation' for all raise points. Mutated histories from the shipped logs (deletion, duplication, "
+      "reordering, splicing between systems, extreme field values, eavesdropping on/off) drive a real Gateway; after every k-th "
+      "packet every public view of gateway/devices/systems/zones is read and get_state/restore invoked; the operation traces "
+      "(view ok / exception type, engine projection, probe handled) are validated by TLC against EngineTrace.",
+      _GW_NOTE, "TLC model checking of the engine automaton + TLC trace validation of real Gateway operation traces", "DESIGN.md §4 C13")
+entry("C14", True, "model_checking",
+      "spec/MsgStore.tla: latest-per-(entity, code, context) store with single and array message forms, a clock and lifetime "
+      "thresholds; TLC checks freshness under all interleavings and the expiry laws (not before L, always from 2L + grace, monotone, "
+      "then unknown). TLC behaviours are replayed into a real Gateway with real packets and every attribute compared after every "
+      "step; _expired tables over the clock for every message kind and sync-cycle countdown are validated by TLC against the "
+      "threshold function (lifetimes read from the code, J13).",
+      _GW_NOTE, "TLC model checking + stepwise conformance replay on a real Gateway + TLC table validation of expiry", "DESIGN.md §4 C14")
+entry("C16", True, "model_checking",
+      "spec/Snapshot.tla: store + wanted-filter + replay-restore with equal timestamps and arrival-vs-timestamp order; TLC checks "
+      "fixpoint, idempotence and content rules on small stores. Gateway states reached by prefixes / splices / deletions / "
+      "duplications of the shipped logs go through the real get_state -> fresh Gateway -> restore -> get_state; operation traces "
+      "(packet sets, schemas, re-decoded snapshot lines) are validated by TLC against SnapshotTrace.",
+      _GW_NOTE, "TLC model checking + TLC trace validation of real snapshot/restore round trips", "DESIGN.md §4 C16")
+entry("C18", True, "model_checking",
+      "spec/SchedXfer.tla (await-grain): system-wide zone lock, change counter, per-fragment exchange, loss / delay / version bump "
+      "between any two exchanges, caller cancellation at every await, set_schedule's try/else/finally; TLC checks that every "
+      "transfer ends, never returns a mix of versions, leaves no lock behind, and that a follow-up transfer proceeds (incl. "
+      "liveness). TLC fault schedules drive a real Gateway + scripted controller in virtual time; every execution is compared step "
+      "by step with the model and its observable trace is validated by TLC against SchedXferTrace.",
+      _GW_NOTE + " One-fragment schedules are avoided (they are C17's shared-default-set subject).",
+      "TLC model checking (safety + liveness) + stepwise conformance + TLC trace validation on a real Gateway", "DESIGN.md §4 C18")
+entry("C20", True, "model_checking",
+      "spec/Binding.tla (integer-millisecond timed): respondent and supplicant contexts, per-state futures and 5.1 s timers, the "
+      "5 s / 3 s waits, duplicates within one loop iteration, loss, delays around the deadlines, third-party offers, retry round; "
+      "TLC checks success under duplicates, every attempt ending with the tuple or a binding error within its waits, not binding "
+      "afterwards, retry possible. TLC schedules drive two real gateways with faked devices (DHW/RND->CTL, CO2/REM/DIS->FAN) on an "
+      "in-memory ether in virtual time; outcomes are compared with the model's prediction and traces validated by TLC against "
+      "BindingContract.",
+      _GW_NOTE + " Loop exceptions during a binding are recorded, judged only through the clauses they break (J15).",
+      "TLC model checking of the timed binding model + TLC trace validation of real two-gateway handshakes", "DESIGN.md §4 C20")
